@@ -31,11 +31,17 @@ class WorkflowContext:
     @property
     def deterministic(self) -> DeterministicExecutor:
         """Get the deterministic executor for this workflow context."""
-        if self._deterministic is None:
-            self._deterministic = DeterministicExecutor(
-                self.task.invocation.workflow, self.task.app
-            )
-        return self._deterministic
+        # One executor per execution of an invocation, kept on the invocation
+        # object itself: Task.wf is cached per task (and so shared by every
+        # invocation, attempt and thread of the process), while the executor's
+        # position counters and workflow identity belong to one body execution.
+        invocation = self.task.invocation
+        executor = getattr(invocation, "_deterministic_executor", None)
+        if executor is None:
+            executor = DeterministicExecutor(invocation.workflow, self.task.app)
+            invocation._deterministic_executor = executor  # type: ignore[attr-defined]
+        self._deterministic = executor
+        return executor
 
     @property
     def app(self) -> Pynenc:
